@@ -148,6 +148,18 @@ CLAIMS: dict[str, dict[str, str]] = {
         "note": NOTE,
         "technique": "state-completeness (constructor binding of reduce/deepcopy state), CTOR-LSP",
     },
+    "C15": {
+        "text": "Static checking of calendar tables and formulas: defining recurrences of the folded tables (prefix "
+                "sums, leap counts, the weekday table re-derived from the month offsets, dense enumerations), value "
+                "equality of every constant shared with rust/src/constants.rs, canonical decision tables / polynomial "
+                "normal forms of is_leap, p/is_long_year, week_day, days_in_year, day_number and of local_time's "
+                "epoch shift, chunk loops and month search compared between the Python AST and rustc MIR (and with "
+                "the Gregorian rule), finite tabulation (month 1..12 x leap, by the checker's own evaluator) of the "
+                "day_of_year/quarter closed forms, delegation idioms of the getters. Agreement with the calendar over "
+                "all years/timestamps is enumeration and not claimed.",
+        "note": NOTE + " rustc --emit=mir is trusted to reflect the compiled helpers.",
+        "technique": "table recurrences, AST/MIR canonical decision tables and normal forms, finite-enum tabulation",
+    },
 }
 
 NOT_APPLICABLE: dict[str, str] = {}
